@@ -202,6 +202,65 @@ def run(ctx):
                     r.valid, r.style.valid, [p.valid for p in ps]), KNOWN_PRED)
         if s1.valid != all(r.valid for r in s1.cssRules):
             ctx.violation('conjunction-sheet', {'text': text}, 'sheet.valid=%r rules %r' % (s1.valid, [r.valid for r in s1.cssRules]), KNOWN_PRED)
+    # blocks that declare a name more than once (fallback idiom, !important): valid iff ALL declarations are
+    good_bad = [(p_, g, True) for p_, (gs, bs) in SINGLE.items() for g in gs] + [(p_, b, False) for p_, (gs, bs) in SINGLE.items() for b in bs]
+    for _ in range(120 if quick else 3000):
+        few = rng.sample(sorted(SINGLE), 2)
+        decls = []
+        for _k in range(rng.randrange(2, 5)):
+            n_, v_, _e = rng.choice([t for t in good_bad if t[0] in few and (t[2] or rng.random() < 0.35)] or good_bad)
+            decls.append('%s:%s%s' % (n_, v_, ' !important' if rng.random() < 0.2 else ''))
+        text = 'a{%s}' % ';'.join(decls)
+        ctx.case(('conj-dup', text))
+        s1 = cssutils.parseString(text)
+        if not s1.cssRules.length:
+            continue
+        r = s1.cssRules[0]
+        ps = r.style.getProperties(all=True)
+        want = all(p.valid for p in ps)
+        # the same declarations one per rule: the sheet must get the same verdict
+        apart = cssutils.parseString(' '.join('a{%s}' % p.cssText for p in ps))
+        if not (r.style.valid == r.valid == s1.valid == want) or apart.valid != want:
+            ctx.violation('conjunction', {'text': text}, 'sheet.valid=%r rule.valid=%r style.valid=%r declarations %r, one rule per declaration: sheet.valid=%r' % (
+                s1.valid, r.valid, r.style.valid, [p.valid for p in ps], apart.valid), KNOWN_PRED)
+    # @font-face context: the verdict of a declaration does not depend on how it came to be in the block
+    FF = [('font-weight', 'bolder'), ('font-weight', 'bold'), ('font-style', 'inherit'), ('font-style', 'italic'), ('font-family', 'x, y'),
+          ('font-family', 'x'), ('font-stretch', 'wider'), ('font-stretch', 'normal'), ('src', 'url(x.ttf)'), ('src', 'red'),
+          ('unicode-range', 'u+0-7f'), ('color', 'red'), ('font-variant', 'small-caps'), ('font-size', '12px'), ('font-weight', 'lighter')]
+    for n_, v_ in FF:
+        for ctxrule in ('@font-face', 'a'):
+            got = {}
+            try:
+                sh = cssutils.parseString('%s{%s:%s}' % (ctxrule, n_, v_))
+                got['parsed'] = sh.cssRules[0].style.getProperties(all=True)[0].valid
+                for how in ('name-value', 'object', 'object-from-other-block', 'item', 'style-assign', 'cssText-assign'):
+                    sh = cssutils.parseString('%s{}' % ctxrule)
+                    r = sh.cssRules[0]
+                    if how == 'name-value':
+                        r.style.setProperty(n_, v_)
+                    elif how == 'object':
+                        r.style.setProperty(cssutils.css.Property(n_, v_))
+                    elif how == 'object-from-other-block':
+                        other = cssutils.parseString('b{%s:%s}' % (n_, v_)).cssRules[0].style
+                        r.style.setProperty(other.getProperties(all=True)[0])
+                    elif how == 'item':
+                        r.style[n_] = v_
+                    elif how == 'style-assign':
+                        r.style = cssutils.css.CSSStyleDeclaration(cssText='%s:%s' % (n_, v_))
+                    else:
+                        r.style.cssText = '%s:%s' % (n_, v_)
+                    ps = r.style.getProperties(all=True)
+                    got[how] = ps[0].valid if ps else None
+                    again = cssutils.parseString(sh.cssText)
+                    ps2 = again.cssRules[0].style.getProperties(all=True) if again.cssRules.length else []
+                    got[how + '+reparse'] = ps2[0].valid if ps2 else None
+            except Exception as e:
+                ctx.violation('raises', {'name': n_, 'value': v_, 'rule': ctxrule}, '%s: %s' % (type(e).__name__, e), KNOWN_PRED)
+                continue
+            ctx.case(('ctx-path', ctxrule, n_, v_))
+            if len({v for v in got.values() if v is not None}) > 1:
+                ctx.violation('verdict-depends-on-spelling-or-path', {'name': n_, 'value': v_, 'rule': ctxrule},
+                              'verdicts by construction path: %r' % got, KNOWN_PRED)
     for v, exp in (('url(x.ttf)', True), ('red', False)):
         s = cssutils.parseString('@font-face{src:%s} a{src:%s}' % (v, v))
         ctx.case(('fontface', v))
